@@ -1,6 +1,6 @@
 (** Correspondence glue for C06: run the FixTree model on what the harness recorded in the
     fix loop and compare with what the implementation produced. No kernel logic here. *)
-From Sq Require Import Base.Corr FixTree.Model.
+From Sq Require Export Base.Corr FixTree.Model.
 
 (** group [batch]: one applied batch. args = (tree before, fixes), expected = tree after. *)
 Definition batch_args : Type := (seg * list lfix)%type.
